@@ -183,6 +183,8 @@ def families(tier='quick', seed=0):
         ['ab', 'b'], ['*ab', '*b'], ['a*', 'ab*'], ['a*', '*b', 'ic'], ['a*', '*b', '?c'], ['ia', 'ib', 'c', 'd'],
         # needles of different kinds whose lengths are not ascending in written order (re-batching by the optimiser)
         ['ab*', '*c', 'id'], ['abc*', '*c', '?q'],
+        # exactly one case-insensitive regex next to other members
+        ['a', 'i?b'], ['i?ab', 'c*', 'id'],
     ]
     if tier != 'quick':
         lists += [['a', 'b', 'c'], ['a*', 'b*', '*c', '*d*'], ['ia*', 'i*b', 'c'], ['?a', '?b', '?c'], ['*a*', '*b*', '*ab*'],
@@ -401,6 +403,10 @@ def families(tier='quick', seed=0):
     add('shake', 'i-twin and list', {'idents': {'A': ('seq', [M((K('f'), L(S('iab*'), S('icd*')))), M((K('f'), L(S('ab*'), S('cd*')))), M((K('g'), S('x')))])}, 'cond': ('id', 'A')})
     add('modifier', 'str(f) float constant', {'idents': {'A': M((K('f', 'str'), ('f', 1.0)))}, 'cond': ('id', 'A')})
     add('modifier', 'str(f) float list', {'idents': {'A': M((K('f', 'str'), L(('f', 1.0), ('f', 2.5))))}, 'cond': ('id', 'A')})
+    # an and-group with several plain searches on one field (an array can satisfy them with different members)
+    add('shake', 'A and B and C searches on one field', {'idents': {'A': M((K('f'), S('*a*'))), 'B': M((K('f'), S('b*'))), 'C': M((K('g'), S('c')))},
+                                                         'cond': ('and', ('and', ('id', 'A'), ('id', 'B')), ('id', 'C'))})
+    add('shake', '{f, g} and B on f', {'idents': {'A': M((K('f'), S('*a*')), (K('g'), S('c'))), 'B': M((K('f'), S('b*')))}, 'cond': ('and', ('id', 'A'), ('id', 'B'))})
     add('shake', 'A or B same field', {'idents': {'A': M((K('f'), S('a*'))), 'B': M((K('f'), S('*b')))}, 'cond': ('or', ('id', 'A'), ('id', 'B'))})
     add('shake', 'A or B or C same field', {'idents': {'A': M((K('f'), S('a*'))), 'B': M((K('f'), S('*b'))), 'C': M((K('f'), S('ic')))},
                                             'cond': ('or', ('or', ('id', 'A'), ('id', 'B')), ('id', 'C'))})
@@ -458,6 +464,7 @@ MUST = {'single/"a\'', 'single/i\'a"', 'single/"',
         'quant-ident/of(list,2)', 'quant-ident/not of(map,1)', 'quant-ident/of(seq1block,1)', 'quant-ident/of(seq1block,2)', 'quant-ident/all(seq1block)', 'cast-cond/int(f)>1', 'cast-cond/str(f)==str(g)', 'cast-cond/not flt(f)>=1.5',
         'regex-rewrite/?.*a', 'regex-rewrite/list', 'regex-rewrite/i?.*A', 'modifier/str(f) list', 'modifier/not(f) list', 'list-mixed/1,a',
         'list-mixed/>1,<5', 'list/ab*,*c,id', 'list/abc*,*c,?q', 'list-all/ab*,*c,id', 'list-of/ab*,*c,id|2', 'quant-short/all:nested3', 'quant-short/of2:nested3', 'quant-short/of3:nested3', 'cast-cond/1<int(f)', 'cast-cond/1.5>=flt(f)', 'cast-cond/not 2<=int(f)',
+        'list/a,i?b', 'list/i?ab,c*,id',
         'list-mixed/*,>1', 'list-mixed/>=1,<=5', 'quant-short/all:>=1,<=5', 'modifier/str(f) float constant',
         'regex/i?^\\D+$', 'regex/i?\\Sa', 'modifier/{not(f), not(g), h}',
         'modifier/multi-word keys', 'modifier/all(multi-word key)', 'modifier/int(multi-word key)'}
